@@ -16,6 +16,12 @@ MCRoaAspa == MCRoa1 \cup MCAspa
 Chain == [c \in Sub |-> IF c = "B" THEN "A" ELSE "B"]
 Flat == [c \in Sub |-> "A"]
 
+\* The status reports are written by the actions and never read by them (but
+\* for rst itself): configurations whose properties do not mention them
+\* identify states that differ in the reports only.
+CoreView == <<exists, gone, parent, ent, cstate, iss, sus, rc, rcv, req, routes,
+              pub, tasks, pubknown, napi>>
+
 MCInit == Init /\ napi = 0
 MCNext == \/ napi < MaxApi /\ ApiNext /\ napi' = napi + 1
           \/ TaskNext /\ napi' = napi
